@@ -42,7 +42,7 @@ def akai_subject(spec):
     for pi, part in enumerate(model["partitions"]):
         for vi, vol in enumerate(part["volumes"]):
             dir_end = max(P + (c + 1) * S for c in vol["dir"]["chain"])
-            vol_need = max([dir_end, P + A.HDR_END] + [P + (f["chain"][0] + 1) * S for f in vol["files"]])
+            vol_need = max(dir_end, P + A.HDR_END)      # (other files of the volume are not needed)
             for fi, f in enumerate(vol["files"]):
                 if f.get("kind") != "sample":
                     continue
